@@ -246,7 +246,8 @@ def run(report: Report, tier, seed):
                 probs.append(("Addr malformed accepted and assembles", a))
         except pt.TealInputError:
             pass
-    sigs = ["add(uint64,uint64)uint64", "f()void", "g((uint8,string)[],address)string"]
+    sigs = ["add(uint64,uint64)uint64", "f()void", "g((uint8,string)[],address)string", "caf\u00e9(uint64)void", "\u65b9\u6cd5(string)uint64", "pay\U0001f600()void", "it's(byte)bool",
+            "a b(uint64)void"]
     for sg in sigs:
         res = avm.run(pt.compileTeal(pt.Seq(pt.Log(pt.MethodSignature(sg)), pt.Approve()), pt.Mode.Application, version=6))
         if res.logs != [hashlib.new("sha512_256", sg.encode()).digest()[:4]]:
